@@ -1234,31 +1234,20 @@ def _callee(call):
   return dotted(call.func) if isinstance(call, ast.Call) else None
 
 
-def _resolve_call(expr, stmt, rd, want, depth=0):
-  """Resolves `expr` (used in stmt) to calls of `want`; returns (calls, why).
+def _resolve_call(mod, fn, expr, stmt, want):
+  """Resolves `expr` (used in `stmt` of `fn`) to calls of `want`.
 
-  expr is the call itself, or a local name all of whose reaching definitions
-  are plain assignments whose value resolves the same way.
+  Returns ([(call, owner function, statement)], None) when every value the
+  expression can have is such a call - written inline, bound to a local name
+  (all reaching definitions), or returned by a function of the same module
+  that the expression calls (followed into that function) - else (None, why).
   """
-  if depth > 6:
-    return None, "definition chain too deep"
-  if isinstance(expr, ast.Call) and _callee(expr) == want:
-    return [(expr, stmt)], None
-  if isinstance(expr, ast.Name):
-    defs = _defs_at(rd, stmt, expr.id)
-    if not defs:
-      return None, f"{expr.id} has no local definition"
-    out = []
-    for d in defs:
-      if not (isinstance(d, ast.Assign) and len(d.targets) == 1
-              and isinstance(d.targets[0], ast.Name)):
-        return None, f"{expr.id} is bound by {type(d).__name__} at line {getattr(d, 'lineno', 0)}"
-      sub, why = _resolve_call(d.value, d, rd, want, depth + 1)
-      if sub is None:
-        return None, why
-      out.extend(sub)
-    return out, None
-  return None, f"`{src(expr)}` is not a call of {want}"
+  vals = _value_sources(mod, fn, expr, stmt,
+                        follow=lambda c: _callee(c) != want)
+  for v, _, _ in vals:
+    if not (isinstance(v, ast.Call) and _callee(v) == want):
+      return None, f"`{src(v)}` is not a call of {want}"
+  return vals, None
 
 
 @rule("R4.1", "C04", floor=5)
@@ -1266,7 +1255,6 @@ def r4_1(ctx):
   """generate_pyi_ast stores CanonicalOrdering(Optimize(...)) in ret.ast."""
   mod = get_module(ctx, IO)
   fn = mod.func("generate_pyi_ast")
-  rd = _reaching(fn)
   stores = [n for n in ast.walk(fn) if isinstance(n, ast.Assign)
             and any(dotted(t) == "ret.ast" for t in n.targets)]
   if not stores:
@@ -1274,7 +1262,7 @@ def r4_1(ctx):
   canon_sites = []
   ok, why = True, None
   for s in stores:
-    calls, why = _resolve_call(s.value, s, rd, "pytd_utils.CanonicalOrdering")
+    calls, why = _resolve_call(mod, fn, s.value, s, "pytd_utils.CanonicalOrdering")
     if calls is None:
       ok = False
       break
@@ -1283,21 +1271,22 @@ def r4_1(ctx):
             stores[0].lineno,
             "the AST stored in ret.ast is not (on every path) the result of "
             f"pytd_utils.CanonicalOrdering: {why}",
-            {"stored": [src(s.value) for s in stores]})
+            {"stored": [src(s.value) for s in stores],
+             "canonicalised_in": sorted({f.name for _, f, _ in canon_sites})})
   # CanonicalOrdering is applied to the optimised AST (after Optimize)
   ok2, why2 = bool(canon_sites), "no CanonicalOrdering call"
-  for call, st in canon_sites:
+  for call, owner, st in canon_sites:
     if len(call.args) != 1 or call.keywords:
       raise AnalysisError("CanonicalOrdering call has an unexpected signature")
-    res, why2 = _resolve_call(call.args[0], st, rd, "optimize.Optimize")
+    res, why2 = _resolve_call(mod, owner, call.args[0], st, "optimize.Optimize")
     if res is None:
       ok2 = False
       break
   ctx.check(ok2, "generate_pyi_ast:CanonicalOrdering<-Optimize", IO,
-            canon_sites[0][1].lineno if canon_sites else fn.lineno,
+            canon_sites[0][2].lineno if canon_sites else fn.lineno,
             "CanonicalOrdering must be applied to the result of "
             f"optimize.Optimize (the optimiser rebuilds unions/classes): {why2}",
-            {"argument": [src(c.args[0]) for c, _ in canon_sites]})
+            {"argument": [src(c.args[0]) for c, _, _ in canon_sites]})
   # every normal exit has passed the store, and returns `ret`
   mf = flow.flow(fn, lambda u: {"stored"} if u in stores else None, mode="must")
   exits = [(k, n, s) for k, n, s in mf.exits if k in ("return", "end")]
@@ -1310,7 +1299,6 @@ def r4_1(ctx):
             {"exits": [(k, getattr(n, "lineno", 0)) for k, n, _ in exits]})
   # generate_pyi prints ret.ast of generate_pyi_ast
   g = mod.func("generate_pyi")
-  rdg = _reaching(g)
   outs = calls_in(g, name="_output_ast")
   if len(outs) != 1 or not outs[0].args:
     raise AnalysisError("generate_pyi: _output_ast(...) call not found")
@@ -1318,7 +1306,7 @@ def r4_1(ctx):
   ok4, why4 = False, f"_output_ast is given `{src(a0)}`"
   if isinstance(a0, ast.Attribute) and a0.attr == "ast" and \
       isinstance(a0.value, ast.Name):
-    res, why4 = _resolve_call(a0.value, mod.enclosing_stmt(outs[0]), rdg,
+    res, why4 = _resolve_call(mod, g, a0.value, mod.enclosing_stmt(outs[0]),
                               "generate_pyi_ast")
     ok4 = res is not None
   ctx.check(ok4, "generate_pyi:prints-canonical-ast", IO, outs[0].lineno,
@@ -1364,38 +1352,79 @@ def _sorted_of(expr, param, field):
           and dotted(expr.args[0]) == f"{param}.{field}")
 
 
-def _classify_field_value(mod, fn, rd, stmt, expr, param, field, depth=0):
-  """-> list of (kind, stmt) with kind in sorted / passthrough / none."""
-  if depth > 4:
+def _inline_helper(mod, fn, stmt, expr):
+  """`H(a, b)` with H a module-level `def H(x, y): return E` (plain positional
+  parameters, no decorators, body = [docstring] return E) -> E with the
+  parameters replaced by the argument expressions; else None."""
+  import copy
+  callee = _local_function(mod, fn, expr, stmt)
+  if callee is None or expr.keywords or any(isinstance(a, ast.Starred) for a in expr.args):
+    return None
+  a = callee.args
+  if a.vararg or a.kwarg or a.kwonlyargs or a.posonlyargs or a.defaults or \
+      callee.decorator_list or len(a.args) != len(expr.args):
+    return None
+  body = [st for st in callee.body if not (
+      isinstance(st, ast.Expr) and isinstance(st.value, ast.Constant)
+      and isinstance(st.value.value, str))]
+  if len(body) != 1 or not isinstance(body[0], ast.Return) or body[0].value is None:
+    return None
+  params = {p.arg: arg for p, arg in zip(a.args, expr.args)}
+  # the helper must not bind its parameters again (comprehension targets, lambdas)
+  for n in ast.walk(body[0].value):
+    if isinstance(n, ast.Name) and isinstance(n.ctx, ast.Store) and n.id in params:
+      return None
+    if isinstance(n, ast.Lambda):
+      return None
+
+  class Sub(ast.NodeTransformer):
+    def visit_Name(self, node):
+      if isinstance(node.ctx, ast.Load) and node.id in params:
+        return copy.deepcopy(params[node.id])
+      return node
+  return Sub().visit(copy.deepcopy(body[0].value))
+
+
+def _classify_field_value(mod, fn, rd, stmt, expr, param, field, depth=0, extra=()):
+  """-> list of (kind, stmt, guards) with kind in sorted / passthrough / none;
+  guards = conditions of enclosing conditional expressions [(test src, polarity,
+  test node)] under which this value is chosen."""
+  if depth > 6:
     raise AnalysisError(f"{fn.name}: definition chain of {field} too deep")
+  if isinstance(expr, ast.Call):
+    inl = _inline_helper(mod, fn, stmt, expr)
+    if inl is not None:
+      return _classify_field_value(mod, fn, rd, stmt, inl, param, field, depth + 1, extra)
   if _sorted_of(expr, param, field):
-    return [("sorted", stmt)]
+    return [("sorted", stmt, extra)]
   if dotted(expr) == f"{param}.{field}":
-    return [("passthrough", stmt)]
+    return [("passthrough", stmt, extra)]
   if isinstance(expr, ast.Constant) and expr.value is None:
-    return [("none", stmt)]
+    return [("none", stmt, extra)]
   d = dotted(expr)
   if d and d.startswith(param + ".") and d.count(".") == 1:
-    return [(f"other-field:{d}", stmt)]
+    return [(f"other-field:{d}", stmt, extra)]
   if isinstance(expr, ast.Call) and dotted(expr.func) == "sorted" and \
       len(expr.args) == 1 and not expr.keywords:
     d = dotted(expr.args[0])
     if d and d.startswith(param + ".") and d.count(".") == 1:
-      return [(f"sorted-other-field:{d}", stmt)]
+      return [(f"sorted-other-field:{d}", stmt, extra)]
   if isinstance(expr, ast.Call) and dotted(expr.func) in ("tuple", "list") and \
       len(expr.args) == 1 and not expr.keywords:
     return _classify_field_value(mod, fn, rd, stmt, expr.args[0], param,
-                                 field, depth + 1)
+                                 field, depth + 1, extra)
   if isinstance(expr, ast.IfExp):
     test = src(expr.test)
-    body = _classify_field_value(mod, fn, rd, stmt, expr.body, param, field, depth + 1)
-    other = _classify_field_value(mod, fn, rd, stmt, expr.orelse, param, field, depth + 1)
+    body = _classify_field_value(mod, fn, rd, stmt, expr.body, param, field, depth + 1,
+                                 extra + ((test, True, expr.test),))
+    other = _classify_field_value(mod, fn, rd, stmt, expr.orelse, param, field, depth + 1,
+                                  extra + ((test, False, expr.test),))
     # `sorted(x) if x is not None else None`
-    if test == f"{param}.{field} is not None" and other == [("none", stmt)]:
-      return body
-    if test == f"{param}.{field} is None" and body == [("none", stmt)]:
-      return other
-    raise AnalysisError(f"{fn.name}: conditional for {field} not understood: {test}")
+    if test == f"{param}.{field} is not None" and [k for k, _, _ in other] == ["none"]:
+      return [(k, st, extra) for k, st, _ in body]
+    if test == f"{param}.{field} is None" and [k for k, _, _ in body] == ["none"]:
+      return [(k, st, extra) for k, st, _ in other]
+    return body + other
   if isinstance(expr, ast.Name):
     defs = _defs_at(rd, stmt, expr.id)
     if not defs:
@@ -1406,9 +1435,78 @@ def _classify_field_value(mod, fn, rd, stmt, expr, param, field, depth=0):
               and isinstance(d.targets[0], ast.Name)):
         raise AnalysisError(f"{fn.name}: {expr.id} bound by {type(d).__name__}")
       out.extend(_classify_field_value(mod, fn, rd, d, d.value, param, field,
-                                       depth + 1))
+                                       depth + 1, extra))
     return out
   raise AnalysisError(f"{fn.name}: value of {field} not understood: {src(expr)}")
+
+
+def _class_test(mod, fn, test, param):
+  """The predicate function that the condition `test` (a call `self.X(P)` /
+  `X(P)` on the visited node P) resolves to, else None."""
+  if not (isinstance(test, ast.Call) and len(test.args) == 1 and not test.keywords
+          and isinstance(test.args[0], ast.Name) and test.args[0].id == param):
+    return None
+  f = test.func
+  if isinstance(f, ast.Attribute) and isinstance(f.value, ast.Name) and \
+      fn.args.args and f.value.id == fn.args.args[0].arg:
+    cls = mod.parent.get(fn)
+    if isinstance(cls, ast.ClassDef):
+      for st in cls.body:
+        if isinstance(st, _FUNC) and st.name == f.attr and not st.decorator_list:
+          return st, 1
+    return None
+  if isinstance(f, ast.Name) and f.id in mod.functions and \
+      not mod.functions[f.id].decorator_list:
+    return mod.functions[f.id], 0
+  return None
+
+
+def _real_class_test(mod, pc, skip):
+  """(verdict, seen): the predicate returns True only under a condition on the
+  class's decorators / bases (never unconditionally)."""
+  if len(pc.args.args) != skip + 1:
+    raise AnalysisError(f"{pc.name}: unexpected parameters")
+  p = pc.args.args[skip].arg
+  verdict, seen = True, []
+
+  def operand(v, guarded_by):
+    """'cond' (depends on the class), 'false', 'true'."""
+    if isinstance(v, ast.Constant) and v.value is True:
+      return "true"
+    if isinstance(v, ast.Constant) and v.value is False:
+      return "false"
+    if isinstance(v, ast.Call) and dotted(v.func) == "IsNamedTuple" and \
+        [dotted(a) for a in v.args] == [p]:
+      return "cond"
+    if isinstance(v, ast.Call) and dotted(v.func) in ("any", "all") and \
+        len(v.args) == 1 and isinstance(v.args[0], (ast.GeneratorExp, ast.ListComp)):
+      its = {dotted(g.iter) for g in v.args[0].generators}
+      if its & {f"{p}.decorators", f"{p}.bases"} and dotted(v.func) == "any":
+        return "cond"
+    if isinstance(v, ast.BoolOp) and isinstance(v.op, ast.Or):
+      kinds = [operand(x, guarded_by) for x in v.values]
+      if "true" in kinds:
+        return "true"
+      return "cond" if "cond" in kinds else "false"
+    raise AnalysisError(f"{pc.name}: return "
+                        f"`{src(v) if v is not None else None}` not understood")
+
+  for r in [n for n in walk_no_nested(pc) if isinstance(n, ast.Return)]:
+    v = r.value
+    if isinstance(v, ast.Constant) and v.value is True:
+      g = flow.guards(mod.parent, r, stop=pc)
+      mentions = {a for t, pol in g if pol for a in flow.attrs_in(t)}
+      seen.append(("True", sorted(mentions)))
+      if not ({f"{p}.decorators", f"{p}.bases"} & mentions):
+        verdict = False
+      continue
+    kind = operand(v, None)
+    seen.append(({"cond": src(v), "false": "False", "true": "True"}[kind], []))
+    if kind == "true":
+      verdict = False
+  if not seen:
+    raise AnalysisError(f"{pc.name}: no return found")
+  return verdict, seen
 
 
 def _canonical_visit(ctx, cls, method, sch):
@@ -1438,7 +1536,7 @@ def _canonical_visit(ctx, cls, method, sch):
     v = kwarg(call, field)
     if v is None:
       out[field] = ([("passthrough" if shape == "replace" else "missing",
-                      rets[0])], fn, mod, rets[0])
+                      rets[0], ())], fn, mod, rets[0])
     else:
       out[field] = (_classify_field_value(mod, fn, rd, rets[0], v, param, field),
                     fn, mod, rets[0])
@@ -1451,6 +1549,7 @@ def r4_2(ctx):
   from rules._pytd_schema import get_schema
   sch = get_schema(ctx)
   rel = PYTD_VISITORS
+  preserve_tests = []
   for cls, method in (("TypeDeclUnit", "VisitTypeDeclUnit"),
                       ("Class", "VisitClass"),
                       ("Signature", "VisitSignature"),
@@ -1462,7 +1561,7 @@ def r4_2(ctx):
       raise AnalysisError(f"pytd.{cls} has no tuple fields")
     for field, (kinds, fn, mod, ret) in res.items():
       construct = f"{method}:{field}"
-      ks = sorted({k for k, _ in kinds})
+      ks = sorted({k for k, _, _ in kinds})
       facts = {"rebuilt_as": ks}
       if (cls, field) in _ORDER_SIGNIFICANT:
         ctx.check(ks == ["passthrough"], construct, rel, fn.lineno,
@@ -1478,20 +1577,26 @@ def r4_2(ctx):
         ctx.ok(construct, rel, fn.lineno, facts)
         continue
       if "sorted" in ks and "passthrough" in ks and (cls, field) == ("Class", "constants"):
-        # unsorted only under the dataclass / namedtuple guard
+        # unsorted only under the dataclass / namedtuple guard: a statement
+        # guard or the test of a conditional expression that calls, on the
+        # visited class, a predicate of this module / visitor
         guarded = True
         gl = []
-        for k, st in kinds:
+        for k, st, extra in kinds:
           if k != "passthrough":
             continue
-          g = [(src(t), p) for t, p in flow.guards(mod.parent, st, stop=fn)]
-          gl.append(g)
-          if (f"self._PreserveConstantsOrdering({fn.args.args[1].arg})", True) not in g:
+          tests = [(t, p) for t, p in flow.guards(mod.parent, st, stop=fn)]
+          tests += [(t, p) for _, p, t in extra]
+          gl.append([(src(t), p) for t, p in tests])
+          hit = [t for t, p in tests if p and _class_test(mod, fn, t, fn.args.args[1].arg)]
+          if not hit:
             guarded = False
+          else:
+            preserve_tests.extend(_class_test(mod, fn, t, fn.args.args[1].arg) for t in hit)
         ctx.check(guarded, construct, rel, fn.lineno,
-                  "Class.constants may stay unsorted only under "
-                  "_PreserveConstantsOrdering(node) (dataclass/attrs/namedtuple "
-                  f"field order); guards={gl}",
+                  "Class.constants may stay unsorted only under a test of the "
+                  "class (dataclass/attrs/namedtuple field order: "
+                  f"_PreserveConstantsOrdering(node)); guards={gl}",
                   facts | {"exception": "dataclass/namedtuple field order",
                            "guards": gl})
         continue
@@ -1514,39 +1619,26 @@ def r4_2(ctx):
     raise AnalysisError("VisitUnionType: type_list argument not found")
   if "type_list" not in sch.tuple_fields("UnionType"):
     raise AnalysisError("pytd.UnionType.type_list is no longer a tuple field")
-  ctx.check(_sorted_of(v, param, "type_list"), "VisitUnionType:type_list", rel,
+  vk = _classify_field_value(mod, fn, _reaching(fn), rets[0], v, param, "type_list")
+  ctx.check([k for k, _, _ in vk] == ["sorted"], "VisitUnionType:type_list", rel,
             fn.lineno, f"UnionType.type_list is rebuilt as {src(v)}; union "
             "members come from binding order and must be sorted",
             {"value": src(v)})
   # the helper guarding the constants exception must be a real test of the
   # class: `return True` only under a condition on its decorators/bases
-  pc = mod.func("CanonicalOrderingVisitor._PreserveConstantsOrdering")
-  if len(pc.args.args) != 2:
-    raise AnalysisError("_PreserveConstantsOrdering: unexpected parameters")
-  p = pc.args.args[1].arg
-  verdict, seen = True, []
-  for r in [n for n in walk_no_nested(pc) if isinstance(n, ast.Return)]:
-    v = r.value
-    if isinstance(v, ast.Constant) and v.value is True:
-      g = flow.guards(mod.parent, r, stop=pc)
-      mentions = {a for t, pol in g if pol for a in flow.attrs_in(t)}
-      seen.append(("True", sorted(mentions)))
-      if not ({f"{p}.decorators", f"{p}.bases"} & mentions):
-        verdict = False
-    elif isinstance(v, ast.Constant) and v.value is False:
-      seen.append(("False", []))
-    elif isinstance(v, ast.Call) and dotted(v.func) == "IsNamedTuple" and \
-        [dotted(a) for a in v.args] == [p]:
-      seen.append(("IsNamedTuple", []))
-    else:
-      raise AnalysisError("_PreserveConstantsOrdering: return "
-                          f"`{src(v) if v is not None else None}` not understood")
-  if not seen:
-    raise AnalysisError("_PreserveConstantsOrdering: no return found")
-  ctx.check(verdict, "_PreserveConstantsOrdering:conditional", rel, pc.lineno,
-            "_PreserveConstantsOrdering returns True without testing the "
-            "class's decorators/bases: class constants would never be sorted",
-            {"returns": seen})
+  found = {id(f): (f, skip) for f, skip in preserve_tests}
+  if not found:
+    found = {0: (mod.func("CanonicalOrderingVisitor._PreserveConstantsOrdering"), 1)}
+  verdict, seen, line = True, [], 0
+  for pc, skip in found.values():
+    v1, s1 = _real_class_test(mod, pc, skip)
+    verdict = verdict and v1
+    seen.append((pc.name, s1))
+    line = pc.lineno
+  ctx.check(verdict, "_PreserveConstantsOrdering:conditional", rel, line,
+            "the predicate guarding unsorted class constants returns True "
+            "without testing the class's decorators/bases: class constants "
+            "would never be sorted", {"returns": seen})
 
 
 # -- R4.3 ------------------------------------------------------------------------
@@ -1575,14 +1667,30 @@ def r4_3(ctx):
   rets = [n for n in ast.walk(fn) if isinstance(n, ast.Return)]
   if len(rets) != 1:
     raise AnalysisError("_sorted_errors: expected one return")
-  v = rets[0].value
+  vals = _value_sources(mod, fn, rets[0].value, rets[0]) if rets[0].value is not None else []
+  if len(vals) != 1:
+    raise AnalysisError("_sorted_errors: return value not understood")
+  v = vals[0][0]
   ok = isinstance(v, ast.Call) and dotted(v.func) == "sorted" and \
       len(v.args) == 1 and dotted(v.args[0]) == "self._errors"
   key = kwarg(v, "key") if isinstance(v, ast.Call) else None
+  # the key: a lambda, or the name of a module-level function `def k(x): return (..)`
+  kparam = kbody = None
+  if isinstance(key, ast.Lambda) and len(key.args.args) == 1:
+    kparam, kbody = key.args.args[0].arg, key.body
+  elif isinstance(key, ast.Name) and key.id in mod.functions and \
+      not _defs_at(_reaching(fn), rets[0], key.id):
+    kf = mod.functions[key.id]
+    krets = [n for n in walk_no_nested(kf) if isinstance(n, ast.Return)]
+    if len(kf.args.args) == 1 and len(krets) == 1 and krets[0].value is not None \
+        and not kf.decorator_list:
+      kvals = _value_sources(mod, kf, krets[0].value, krets[0])
+      if len(kvals) == 1:
+        kparam, kbody = kf.args.args[0].arg, kvals[0][0]
   keyparts = []
-  if ok and isinstance(key, ast.Lambda) and isinstance(key.body, ast.Tuple):
-    p = key.args.args[0].arg
-    for e in key.body.elts:
+  if ok and isinstance(kbody, ast.Tuple):
+    p = kparam
+    for e in kbody.elts:
       attrs = [dotted(a) for a in ast.walk(e) if isinstance(a, ast.Attribute)]
       keyparts.append([a for a in attrs if a and a.startswith(p + ".")])
     flat = [a.split(".", 1)[1] for part in keyparts for a in part]
@@ -1603,14 +1711,60 @@ def r4_3(ctx):
   ctx.check(ok, "unique_sorted_errors:source", ERRORS, fn.lineno,
             f"unique_sorted_errors must walk self._sorted_errors(); it "
             f"iterates {its}", {"iterates": its})
-  # its result is built from the insertion-ordered dict filled in that walk
+  # its result is the flattening of the insertion-ordered dict filled in that
+  # walk: sum(D.values(), []), list(chain.from_iterable(D.values())) or
+  # [e for g in D.values() for e in g], D a local dict that starts empty and
+  # gets its keys only inside the loop over self._sorted_errors()
   rets = [n for n in walk_no_nested(fn) if isinstance(n, ast.Return)]
-  ok = len(rets) == 1 and src(rets[0].value) in (
-      "sum(unique_errors.values(), [])",
-      "list(itertools.chain.from_iterable(unique_errors.values()))")
-  if not ok:
+  dname = None
+  if len(rets) == 1 and rets[0].value is not None:
+    rv = _value_sources(mod, fn, rets[0].value, rets[0])
+    rv = rv[0][0] if len(rv) == 1 else None
+    vals_call = None
+    if isinstance(rv, ast.Call) and dotted(rv.func) == "sum" and len(rv.args) == 2 \
+        and isinstance(rv.args[1], ast.List) and not rv.args[1].elts and not rv.keywords:
+      vals_call = rv.args[0]
+    elif isinstance(rv, ast.Call) and dotted(rv.func) == "list" and len(rv.args) == 1 \
+        and isinstance(rv.args[0], ast.Call) and dotted(rv.args[0].func) in (
+            "itertools.chain.from_iterable", "chain.from_iterable") \
+        and len(rv.args[0].args) == 1:
+      vals_call = rv.args[0].args[0]
+    elif isinstance(rv, ast.ListComp) and len(rv.generators) == 2 and \
+        not any(g.ifs or g.is_async for g in rv.generators) and \
+        isinstance(rv.generators[0].target, ast.Name) and \
+        isinstance(rv.generators[1].target, ast.Name) and \
+        isinstance(rv.generators[1].iter, ast.Name) and \
+        rv.generators[1].iter.id == rv.generators[0].target.id and \
+        isinstance(rv.elt, ast.Name) and rv.elt.id == rv.generators[1].target.id:
+      vals_call = rv.generators[0].iter
+    if isinstance(vals_call, ast.Call) and isinstance(vals_call.func, ast.Attribute) \
+        and vals_call.func.attr == "values" and not vals_call.args \
+        and isinstance(vals_call.func.value, ast.Name):
+      dname = vals_call.func.value.id
+  if dname is None:
     raise AnalysisError("unique_sorted_errors: return shape not understood: "
                         + ", ".join(src(r.value) for r in rets if r.value))
+  binds = [n for n in walk_no_nested(fn) if isinstance(n, ast.Assign) and any(
+      isinstance(t, ast.Name) and t.id == dname for t in n.targets)]
+  empty = len(binds) == 1 and (
+      (isinstance(binds[0].value, ast.Dict) and not binds[0].value.keys) or
+      (isinstance(binds[0].value, ast.Call) and dotted(binds[0].value.func) in (
+          "dict", "collections.OrderedDict") and not binds[0].value.args
+       and not binds[0].value.keywords))
+  loops = [n for n in walk_no_nested(fn) if isinstance(n, ast.For)
+           and src(n.iter) == "self._sorted_errors()"]
+  key_stores = [n for n in walk_no_nested(fn) if isinstance(n, ast.Subscript)
+                and isinstance(n.ctx, (ast.Store, ast.Del))
+                and isinstance(n.value, ast.Name) and n.value.id == dname]
+  key_stores += [c for c in calls_in(fn) if isinstance(c.func, ast.Attribute)
+                 and isinstance(c.func.value, ast.Name) and c.func.value.id == dname
+                 and c.func.attr in ("setdefault", "update", "pop", "popitem",
+                                     "clear", "move_to_end")]
+  inside = len(loops) == 1 and all(_within(mod, k, loops[0]) for k in key_stores)
+  if not (empty and inside and key_stores):
+    raise AnalysisError(f"unique_sorted_errors: `{dname}` is not an empty dict "
+                        "that gets its keys only in the walk over "
+                        "self._sorted_errors()")
   # printers iterate only unique_sorted_errors()
   for name in ("print_to_csv_file", "print_to_file"):
     f = mod.func(f"ErrorLog.{name}")
@@ -1721,24 +1875,55 @@ def _reaching_mut(fn):
   return flow.flow(fn, gen, kill, mode="may")
 
 
-def _value_sources(mod, fn, expr, stmt, depth=0):
+def _local_function(mod, fn, call, stmt):
+  """The module-level function of `mod` that `call` (in `stmt` of `fn`) calls
+  by a plain name that `fn` does not rebind; else None."""
+  if isinstance(call, ast.Call) and isinstance(call.func, ast.Name) and \
+      call.func.id in mod.functions and \
+      not _defs_at(_reaching(fn), stmt, call.func.id) and \
+      call.func.id not in {a.arg for a in fn.args.args + fn.args.kwonlyargs
+                           + fn.args.posonlyargs}:
+    return mod.functions[call.func.id]
+  return None
+
+
+def _plain_returns(callee):
+  rets = [n for n in walk_no_nested(callee) if isinstance(n, ast.Return)]
+  if not rets or any(isinstance(n, (ast.Yield, ast.YieldFrom))
+                     for n in walk_no_nested(callee)):
+    raise AnalysisError(f"{callee.name}: not a plain function with return statements")
+  return rets
+
+
+def _value_sources(mod, fn, expr, stmt, depth=0, follow=None):
   """Expressions that `expr` (read in `stmt` of `fn`) evaluates to, following
   local names through their reaching definitions: plain assignments, and
   tuple-unpacking of a call to a function of the same module (then the
   matching element of each returned tuple, resolved inside that function).
-  -> [(expression, function it belongs to)]; a name with no local definition,
-  or bound in another way, is returned as it is.  AnalysisError when the
-  value cannot be followed soundly."""
-  if depth > 5:
+  With `follow` (a predicate on call nodes) a call to a module-level function
+  of the same module is replaced by the values that function returns.
+  -> [(expression, function it belongs to, statement it is evaluated in)]; a
+  name with no local definition, or bound in another way, is returned as it
+  is.  AnalysisError when the value cannot be followed soundly."""
+  if depth > 6:
     raise AnalysisError(f"{fn.name}: definition chain too deep")
   if not isinstance(expr, ast.Name):
-    return [(expr, fn)]
+    if follow is not None and isinstance(expr, ast.Call) and follow(expr):
+      callee = _local_function(mod, fn, expr, stmt)
+      if callee is not None:
+        out = []
+        for r in _plain_returns(callee):
+          if r.value is None:
+            raise AnalysisError(f"{callee.name}: bare return")
+          out.extend(_value_sources(mod, callee, r.value, r, depth + 1, follow))
+        return out
+    return [(expr, fn, stmt)]
   rd = _reaching(fn)
   st = _reaching_mut(fn).before.get(stmt)
   facts = [f for f in (st or ()) if f[0] == expr.id]
   defs = [f[1] for f in facts if f[2] == "def"]
   if not defs:
-    return [(expr, fn)]
+    return [(expr, fn, stmt)]
   if any(f[2] == "mut" for f in facts):
     # the object was changed in place after (one of) its definitions: what
     # those definitions say about the value need not hold at the use
@@ -1746,49 +1931,58 @@ def _value_sources(mod, fn, expr, stmt, depth=0):
            and dotted(d.value.func) == "sorted" for d in defs):
       raise AnalysisError(f"{fn.name}: `{expr.id}` is sorted and then changed "
                           "in place before its use")
-    return [(expr, fn)]
+    return [(expr, fn, stmt)]
   out = []
   for d in defs:
     if not (isinstance(d, ast.Assign) and len(d.targets) == 1):
-      return [(expr, fn)]
+      return [(expr, fn, stmt)]
     t = d.targets[0]
     if isinstance(t, ast.Name):
-      out.extend(_value_sources(mod, fn, d.value, d, depth + 1))
+      out.extend(_value_sources(mod, fn, d.value, d, depth + 1, follow))
       continue
     if isinstance(t, (ast.Tuple, ast.List)) and not any(
         isinstance(e, ast.Starred) for e in t.elts):
       pos = [i for i, e in enumerate(t.elts)
              if isinstance(e, ast.Name) and e.id == expr.id]
       if len(pos) != 1:
-        return [(expr, fn)]
+        return [(expr, fn, stmt)]
       i = pos[0]
       v = d.value
       if isinstance(v, (ast.Tuple, ast.List)) and len(v.elts) == len(t.elts) \
           and not any(isinstance(e, ast.Starred) for e in v.elts):
-        out.extend(_value_sources(mod, fn, v.elts[i], d, depth + 1))
+        out.extend(_value_sources(mod, fn, v.elts[i], d, depth + 1, follow))
         continue
-      callee = None
-      if isinstance(v, ast.Call) and isinstance(v.func, ast.Name) and \
-          v.func.id in mod.functions and not _defs_at(rd, d, v.func.id):
-        callee = mod.functions[v.func.id]
+      callee = _local_function(mod, fn, v, d)
       if callee is None:
-        return [(expr, fn)]
-      rets = [n for n in walk_no_nested(callee) if isinstance(n, ast.Return)]
-      if not rets or any(isinstance(n, (ast.Yield, ast.YieldFrom))
-                         for n in walk_no_nested(callee)):
-        raise AnalysisError(f"{callee.name}: not a plain function returning a tuple")
-      for r in rets:
-        rv = r.value
-        for rv, owner in _value_sources(mod, callee, rv, r, depth + 1) \
-            if isinstance(rv, ast.Name) else [(rv, callee)]:
+        return [(expr, fn, stmt)]
+      for r in _plain_returns(callee):
+        for rv, owner, rst in _value_sources(mod, callee, r.value, r, depth + 1) \
+            if r.value is not None else [(None, callee, r)]:
           if not (isinstance(rv, ast.Tuple) and len(rv.elts) == len(t.elts)
                   and not any(isinstance(e, ast.Starred) for e in rv.elts)):
             raise AnalysisError(
                 f"{callee.name}: returns `{src(rv) if rv is not None else None}`, "
                 f"not a {len(t.elts)}-tuple")
-          out.extend(_value_sources(mod, owner, rv.elts[i], r, depth + 1))
+          out.extend(_value_sources(mod, owner, rv.elts[i], rst, depth + 1, follow))
       continue
-    return [(expr, fn)]
+    return [(expr, fn, stmt)]
+  return out
+
+
+def stored_names_in_functions(mod):
+  """Names assigned inside any function of the module or declared global
+  there (a module constant with such a name may not be constant)."""
+  out = set()
+  for n in ast.walk(mod.tree):
+    if isinstance(n, _FUNC):
+      for x in ast.walk(n):
+        if isinstance(x, ast.Global):
+          out.update(x.names)
+  top = {}
+  for st in mod.tree.body:
+    for nm in stored_names(st) if not isinstance(st, _FUNC + (ast.ClassDef,)) else ():
+      top[nm] = top.get(nm, 0) + 1
+  out.update(nm for nm, k in top.items() if k > 1)
   return out
 
 
@@ -1817,7 +2011,7 @@ def _serialisation_instances(ctx):
   rets = [n for n in ast.walk(fn) if isinstance(n, ast.Return)]
   rv = []
   for r in rets:
-    rv.extend(v for v, _ in _value_sources(mod, fn, r.value, r)) if r.value is not None \
+    rv.extend(v for v, _, _ in _value_sources(mod, fn, r.value, r)) if r.value is not None \
         else rv.append(None)
   ok = (not stray and rv and all(
       isinstance(v, ast.Call) and dotted(v.func) == "Encoder.encode" for v in rv))
@@ -1833,27 +2027,49 @@ def _serialisation_instances(ctx):
     raise AnalysisError("pickle_utils.Save: no .write(...) call")
   wargs, ok = [], True
   for c in writes:
-    vals = [v for v, _ in _value_sources(mod, fn, c.args[0], mod.enclosing_stmt(c))] \
+    vals = [v for v, _, _ in _value_sources(mod, fn, c.args[0], mod.enclosing_stmt(c))] \
         if len(c.args) == 1 else [None]
     wargs.extend(src(v) if v is not None else None for v in vals)
     ok = ok and all(isinstance(v, ast.Call) and dotted(v.func) == "Encode" for v in vals)
   ctx.check(ok, "Save:writes-Encode", PICKLE, fn.lineno,
             f"Save must write Encode(obj); writes {wargs}", {"writes": wargs})
-  gz = [c for c in calls_in(fn) if (dotted(c.func) or "").endswith("GzipFile")]
+  # the gzip stream Save writes through: built in Save, or in a function of
+  # the module that Save calls (two levels)
+  scopes, todo = [fn], [(fn, 0)]
+  while todo:
+    cur, lvl = todo.pop()
+    for c in calls_in(cur):
+      callee = mod.functions.get(c.func.id) if isinstance(c.func, ast.Name) else None
+      if callee is not None and callee not in scopes and lvl < 2 and \
+          callee.name not in ("Encode",):
+        scopes.append(callee)
+        todo.append((callee, lvl + 1))
+  gz = [c for sc in scopes for c in calls_in(sc)
+        if (dotted(c.func) or "").endswith("GzipFile")]
   if len(gz) != 1:
     raise AnalysisError(f"pickle_utils.Save: expected one GzipFile call, found {len(gz)}")
   g = gz[0]
   if any(k.arg is None for k in g.keywords) or len(g.args) > 0:
     raise AnalysisError("pickle_utils.Save: GzipFile called with positional/**kwargs")
+  other_gzip = sorted({dotted(c.func) for sc in scopes for c in calls_in(sc)
+                       if (dotted(c.func) or "").startswith("gzip.")
+                       and not (dotted(c.func) or "").endswith("GzipFile")})
+  if other_gzip:
+    raise AnalysisError(f"pickle_utils.Save: gzip API {other_gzip} is not modelled")
   mt = kwarg(g, "mtime")
-  mt_ok = isinstance(mt, ast.Constant) and isinstance(mt.value, (int, float)) \
-      and not isinstance(mt.value, bool)
+  mtv = try_fold(mt, mod=mod, default=None) if mt is not None else None
+  if isinstance(mt, ast.Name) and mt.id in stored_names_in_functions(mod):
+    mtv = None      # the module constant is rebound somewhere
+  mt_ok = isinstance(mtv, (int, float)) and not isinstance(mtv, bool)
   ctx.check(mt_ok, "Save:gzip-mtime", PICKLE, g.lineno,
             f"gzip.GzipFile(mtime={src(mt) if mt is not None else '<absent>'}): "
             "the gzip header must carry a constant mtime (absent/None means "
-            "time.time())", {"mtime": src(mt) if mt is not None else None})
+            "time.time())", {"mtime": src(mt) if mt is not None else None,
+                             "value": mtv})
   fnm = kwarg(g, "filename")
-  fn_ok = isinstance(fnm, ast.Constant) and fnm.value == ""
+  fnv = try_fold(fnm, mod=mod, default=None) if fnm is not None else None
+  fn_ok = fnm is not None and fnv == "" and not (
+      isinstance(fnm, ast.Name) and fnm.id in stored_names_in_functions(mod))
   ctx.check(fn_ok, "Save:gzip-filename", PICKLE, g.lineno,
             f"gzip.GzipFile(filename={src(fnm) if fnm is not None else '<absent>'}): "
             "the header file name must be blanked (absent means fileobj.name)",
@@ -1867,15 +2083,15 @@ def _serialisation_instances(ctx):
         not isinstance(sinks[0].args[0], ast.Starred)
     if ok:
       vals = _value_sources(mod, f, sinks[0].args[0], mod.enclosing_stmt(sinks[0]))
-      producers = [src(v) for v, _ in vals]
+      producers = [src(v) for v, _, _ in vals]
       ok = all(isinstance(v, ast.Call) and dotted(v.func) == "serialize_ast.SerializeAst"
-               for v, _ in vals)
+               for v, _, _ in vals)
     ok = ok and not [c for c in calls_in(f) if (dotted(c.func) or "").startswith("msgspec.")]
     if name == "Serialize" and ok:
       # ... and that encoding is what Serialize returns
       rets = [n for n in walk_no_nested(f) if isinstance(n, ast.Return)]
       ok = bool(rets) and all(
-          r.value is not None and all(v is sinks[0] for v, _ in
+          r.value is not None and all(v is sinks[0] for v, _, _ in
                                       _value_sources(mod, f, r.value, r))
           for r in rets)
     ctx.check(ok, f"{name}:pipeline", PICKLE, f.lineno,
@@ -1903,8 +2119,8 @@ def _serialisation_instances(ctx):
       raise AnalysisError(f"SerializeAst: argument {fld} not found")
     vals = _value_sources(smod, f, a, smod.enclosing_stmt(ctor))
     ok = all(isinstance(v, ast.Call) and dotted(v.func) == "sorted"
-             and len(v.args) == 1 and not v.keywords for v, _ in vals)
-    shown = sorted({src(v) for v, _ in vals})
+             and len(v.args) == 1 and not v.keywords for v, _, _ in vals)
+    shown = sorted({src(v) for v, _, _ in vals})
     ctx.check(ok, f"SerializeAst:{fld}-sorted", SERIALIZE, a.lineno,
               f"SerializableAst.{fld} is built from {', '.join(shown)}; the module list "
               "must be sorted (it comes from a dict filled in visiting order)",
@@ -1948,8 +2164,8 @@ def _total_key(call):
 def _sorted_total(mod, fn, expr, stmt):
   """(ok, text): every value `expr` can have is sorted(..) with a total key."""
   vals = _value_sources(mod, fn, expr, stmt)
-  ok = all(_plain_sorted(v) and _total_key(v) for v, _ in vals)
-  return ok, ", ".join(sorted({src(v) for v, _ in vals}))
+  ok = all(_plain_sorted(v) and _total_key(v) for v, _, _ in vals)
+  return ok, ", ".join(sorted({src(v) for v, _, _ in vals}))
 
 
 @rule("R4.5", "C04", floor=4)
